@@ -38,7 +38,11 @@ func readActionTable(c *Ctx, dv *dev, rule string) actionTable {
 		for _, in := range b.Instrs {
 			if st, ok := in.(*ssa.Store); ok {
 				if f := fieldOfAddr(st.Addr); f != nil && (sameAnchorName(f.Name(), "actionsPress") || sameAnchorName(f.Name(), "actionsRelease")) {
-					mapField[throughCtor(c.P, st.Val)] = map[bool]string{true: "actionsPress", false: "actionsRelease"}[sameAnchorName(f.Name(), "actionsPress")] // also a table built by a constructor helper
+					tv := throughCtor(c.P, st.Val)
+					if pt, ok := readOnlyPkgTable(c.P, tv, f); ok {
+						tv = pt.mm // a table of the package, built by its initialiser and only read afterwards
+					}
+					mapField[tv] = map[bool]string{true: "actionsPress", false: "actionsRelease"}[sameAnchorName(f.Name(), "actionsPress")] // also a table built by a constructor helper
 				}
 			}
 		}
